@@ -36,7 +36,8 @@ def run(ctx):
             for sub in ('S', 'D'):
                 import shutil; shutil.rmtree(os.path.join(root, sub), ignore_errors=True)
             scen.materialise(root, tree)
-            argv = ['-r', '-T', '--driver', driver, '--workers', str(rng.choice([1, 3, 8])), '--block-size', str(rng.choice([7 if size < 1000 else 4096, 4096, 1 << 20]))]
+            argv = ['-r', '-T', '--driver', driver, '--workers', str(rng.choice([1, 3, 8]))]
+            argv += ['--no-progress'] if rng.random() < 0.15 else ['--block-size', str(rng.choice([7 if size < 1000 else 4096, 4096, 1 << 20]))]
             argv += [f for f, on in (('--ownership', flags['ownership']), ('--no-perms', flags['no_perms']), ('--no-timestamps', flags['no_timestamps']), ('--fsync', flags['fsync'])) if on]
             argv += ['S', 'D']
             plan = [f'sched {ctx.seed * 17 + i} {rng.choice(["pct", "delay"])} {rng.randint(1, 3)}'] if i % 3 == 1 else None   # the last block may finish on any worker
@@ -122,6 +123,25 @@ def run(ctx):
                 if st.st_mtime_ns != mtime: bad.append(f'mtime {st.st_mtime_ns} != source {mtime}')
                 if bad:
                     ctx.violation(f'xattr-fault-{i}.json', dict(argv=argv, plan=plan, prior=prior, oracle=bad), f'C10: after a failing fsetxattr ({en}) the run exits 0 but ' + '; '.join(bad))
+        # ---- --ownership as an UNPRIVILEGED user who may still change the group (the file's group is one of the caller's
+        # supplementary groups): chown(2) does not require root, so the group must be preserved
+        for driver in ('parfile', 'parblock'):
+            u = root + '/U'
+            shutil.rmtree(u, ignore_errors=True); os.makedirs(u + '/S'); os.chmod(root, 0o755)
+            open(u + '/S/f', 'wb').write(b'payload'); os.utime(u + '/S/f', ns=(10 ** 18, 10 ** 18)); os.chmod(u + '/S/f', 0o640)
+            for pth, ug in ((u, (61234, 61234)), (u + '/S', (61234, 61234)), (u + '/S/f', (61234, 61235))):
+                os.chown(pth, *ug)
+            argv = ['--ownership', '-r', '-T', '--driver', driver, 'S', 'D']
+            r = scen.run_xcp(u, argv, ids=(61234, 61234, [61235]), timeout=60)
+            ctx.count(f'unprivileged_ownership.exit.{r.cls}'); ctx.case(('unprivileged-ownership', driver), True)
+            if r.cls != '0':
+                ctx.violation(f'unpriv-owner-{driver}-exit.json', dict(argv=argv, stderr=r.stderr[-300:]), 'copy with --ownership as an unprivileged user failed', no_input=True)
+            else:
+                st = os.lstat(u + '/D/f')
+                if (st.st_uid, st.st_gid) != (61234, 61235) or st.st_mode & 0o7777 != 0o640 or st.st_mtime_ns != 10 ** 18:
+                    ctx.violation(f'unpriv-owner-{driver}.json', dict(argv=argv, run_as='uid 61234 gid 61234 groups [61235]', source='61234:61235 0640', got=f'{st.st_uid}:{st.st_gid} {oct(st.st_mode & 0o7777)} mtime {st.st_mtime_ns}'),
+                                  f'C10: --ownership as uid 61234 (member of group 61235): destination is {st.st_uid}:{st.st_gid} mode {oct(st.st_mode & 0o7777)}, source 61234:61235 mode 0640 ({driver})')
+            shutil.rmtree(u, ignore_errors=True)
         # ---- with --no-perms every regular file keeps the DEFAULT mode (0666 & ~umask), whatever other threads are doing at the
         # moment it is created (special files being recreated next to it, any interleaving)
         for driver in ('parfile', 'parblock'):
@@ -152,7 +172,7 @@ def run(ctx):
                     ctx.violation(f'no-perms-tree-{driver}.json', dict(argv=argv, plan=plan, umask='0o22', wrong=wrong[:10], count=len(wrong)),
                                   f'C10: --no-perms: {len(wrong)} regular files do not have the default mode 0644 (umask 022), e.g. {wrong[0]} ({driver}, plan {plan})')
     ctx.cov['rule'] = ('mode = special bits {none, suid, sgid, sticky, combos} | rwx sample over 0..0777; mtime past/future/sub-second/1ns; 0-3 user xattrs; uid/gid pairs; '
-                       'all combinations of --ownership/--no-perms/--no-timestamps/--fsync; drivers; workers; block sizes giving 1..many blocks; fresh or existing destination; umask; a failing fsetxattr (must not skip chmod/utimens); --no-perms over a tree with FIFOs under stalled mknodat. '
+                       'all combinations of --ownership/--no-perms/--no-timestamps/--fsync; drivers; workers; block sizes giving 1..many blocks; fresh or existing destination; umask; a failing fsetxattr (must not skip chmod/utimens); --no-perms over a tree with FIFOs under stalled mknodat; --ownership as an unprivileged member of the group of the file. '
                        'distinct = distinct parameter tuple')
     ctx.assumptions += ['runs as root on ext4 (chown permitted; CAP_FSETID keeps set-id bits on write)', "Linux' chown clears S_ISUID, and S_ISGID when S_IXGRP is set"]
 
